@@ -1747,6 +1747,18 @@ def join_chains(text):
         out.append(".")
         last = m.end()
     out.append(text[last:])
+    text = "".join(out)
+    # … and arguments over lines: no white-space after an opening / before a closing parenthesis or bracket, no trailing comma
+    spans = literal_spans(text)
+    out, last, si = [], 0, 0
+    for m in re.finditer(r"(?<=[(\[])\s+|\s*,?\s+(?=[)\]])|,(?=[)\]])", text):
+        while si < len(spans) and spans[si][1] <= m.start():
+            si += 1
+        if si < len(spans) and spans[si][0] < m.end() and m.start() < spans[si][1]:
+            continue
+        out.append(text[last:m.start()])
+        last = m.end()
+    out.append(text[last:])
     return "".join(out)
 
 
